@@ -4,6 +4,7 @@ from __future__ import annotations
 import re
 
 import gens
+import impl_call  # noqa: F401  (registers the CALL handler)
 import pyref
 from impl import parse_scope
 from framework import Case
@@ -16,7 +17,7 @@ THEOREMS: list[str] = []  # filled from Properties/C05.lean by the registry (see
 RULE = (
     "corpus; exhaustive grammar strings with <=2 (quick) / <=3 (thorough) operator-function-group nodes over atoms {a,b,2,3} "
     "x scopes; seeded random grammar strings (size 3..9 quick, ..14 thorough, longer atoms, 30-digit literals); same-level chains; "
-    "name= prefixes; identifier-free expressions as dimensions of an annotation checked against arrays; one expression object evaluated under a sequence of scopes (with an unbound name / a zero in between); non-trivial = distinct line whose string has >=1 operator and lies in the documented grammar (spec oracle)"
+    "name= prefixes; expressions as axes of a dltyped function behind a scope provider (zero sizes included); identifier-free expressions as dimensions of an annotation checked against arrays; one expression object evaluated under a sequence of scopes (with an unbound name / a zero in between); non-trivial = distinct line whose string has >=1 operator and lies in the documented grammar (spec oracle)"
 )
 
 
@@ -82,6 +83,23 @@ def cases(tier, rng, run):
         if not pyref.feasible(e, parse_scope(sc)):
             continue
         out.append(Case(f"EVAL\t{e}\t{sc}", "rand"))
+        if named is None and rng.random() < 0.2:
+            # the same expression as an axis of a dltyped function whose names come from a scope provider (zero sizes included):
+            # the axis must have the arithmetic value, whatever path the names take into the scope
+            try:
+                v = pyref.ev(pyref.parse(e), parse_scope(sc))
+            except Exception:  # noqa: BLE001
+                v = None
+            if v is not None and 0 <= v <= 48:
+                sc0 = ";".join(f"{k}:{0 if (x == 0 or rng.random() < 0.15) else x}" for k, x in parse_scope(sc).items())
+                try:
+                    v0 = pyref.ev(pyref.parse(e), parse_scope(sc0)) if pyref.feasible(e, parse_scope(sc0)) else None
+                except Exception:  # noqa: BLE001
+                    v0 = None
+                for scx, vx in ((sc, v), (sc0, v0)):
+                    if vx is not None and 0 <= vx <= 48:
+                        out.append(Case(f"CALL\tfunc:pos\tobj\t{scx}\tP|x|S|FloatTensor,0,q_ {e}|T,0:float32,2.{vx}", "provcall", {"want": True}))
+                        out.append(Case(f"CALL\tfunc:kw\tobj\t{scx}\tP|x|S|FloatTensor,0,{e} q_|T,0:float32,{vx + 1}.2", "provcall", {"want": False}))
         if rng.random() < 0.25:
             # the same expression object evaluated several times: an evaluation that fails half-way (an unbound name, a zero
             # divisor) must leave nothing behind for the evaluations that follow
@@ -107,6 +125,15 @@ _POST = re.compile(r"id=(.*?) post=(\[.*?\])(?: |$)")
 
 def judge(case, impl_out, spec):
     op = case.line.split("\t")[0]
+    if case.tag == "provcall":
+        ok = impl_out.endswith(" ok")
+        if impl_out.startswith("decor") or "unmodelled" in impl_out:
+            return None
+        if case.meta["want"] and not ok:
+            return "an axis whose size is the arithmetic value of its expression under the provider's sizes is refused: " + impl_out
+        if not case.meta["want"] and ok:
+            return "an axis whose size is NOT the arithmetic value of its expression under the provider's sizes is accepted"
+        return None
     if case.tag == "litexpr":
         if case.meta["want"] and not impl_out.startswith("accept"):
             return "an axis whose size is the arithmetic value of its (identifier-free) expression is refused: " + impl_out
